@@ -6,15 +6,15 @@ from .common import harness_crate
 _KD = {}
 
 
-def kdir():
-    if 'd' not in _KD:
-        _KD['d'] = harness_crate('kani')
-    return _KD['d']
+def kdir(crate='kani'):
+    if crate not in _KD:
+        _KD[crate] = harness_crate(crate)
+    return _KD[crate]
 
 
-def _prepare():
+def _prepare(crate='kani'):
     # the lock file follows /repo's (path deps are resolved against it)
-    shutil.copyfile(os.path.join(REPO, 'Cargo.lock'), os.path.join(kdir(), 'Cargo.lock'))
+    shutil.copyfile(os.path.join(REPO, 'Cargo.lock'), os.path.join(kdir(crate), 'Cargo.lock'))
 
 
 def parse_output(text):
@@ -49,9 +49,9 @@ def parse_output(text):
     return res
 
 
-def run_group(harnesses, tag, timeout_s=600, mem_gb=12, extra_args=()):
+def run_group(harnesses, tag, timeout_s=600, mem_gb=12, extra_args=(), crate='kani'):
     """one `cargo kani` invocation (own target dir) running the given harnesses sequentially."""
-    _prepare()
+    _prepare(crate)
     tdir = os.path.join(BUILD, 'kani-' + tag)
     cmd = ['cargo', 'kani', '--target-dir', tdir, '--output-format', 'terse']
     for h in harnesses:
@@ -62,7 +62,7 @@ def run_group(harnesses, tag, timeout_s=600, mem_gb=12, extra_args=()):
     log = os.path.join(BUILD, f'kani-{tag}.log')
     with open(log, 'w') as lf:
         try:
-            p = subprocess.run(['bash', '-c', shell], cwd=kdir(), env=env_offline(), stdout=lf, stderr=subprocess.STDOUT,
+            p = subprocess.run(['bash', '-c', shell], cwd=kdir(crate), env=env_offline(), stdout=lf, stderr=subprocess.STDOUT,
                                timeout=timeout_s)
             rc = p.returncode
         except subprocess.TimeoutExpired:
@@ -81,12 +81,12 @@ def run_group(harnesses, tag, timeout_s=600, mem_gb=12, extra_args=()):
     return res, time.time() - t0, log
 
 
-def run_parallel(groups, timeout_s=600, mem_gb=12, workers=8):
+def run_parallel(groups, timeout_s=600, mem_gb=12, workers=8, crate='kani'):
     """groups: {tag: [harness,...]} -> merged results"""
     out = {}
-    _prepare()
+    _prepare(crate)
     with cf.ThreadPoolExecutor(max_workers=workers) as ex:
-        futs = {ex.submit(run_group, hs, tag, timeout_s, mem_gb): tag for tag, hs in groups.items()}
+        futs = {ex.submit(run_group, hs, tag, timeout_s, mem_gb, (), crate): tag for tag, hs in groups.items()}
         for f in cf.as_completed(futs):
             res, wall, log = f.result()
             for h, r in res.items():
@@ -114,13 +114,13 @@ def record(rep, results, expect_covers=True):
     return failed
 
 
-def playback(harness, timeout_s=900):
+def playback(harness, timeout_s=900, crate='kani'):
     """Re-run a failed harness with concrete playback in a scratch copy of the harness crate and execute the
     generated unit test natively (dev and release). -> (reproduced: bool|None, detail)"""
     import tempfile
     scratch = os.path.join(BUILD, 'playback-' + harness)
     shutil.rmtree(scratch, ignore_errors=True)
-    shutil.copytree(kdir(), scratch, ignore=shutil.ignore_patterns('target'))
+    shutil.copytree(kdir(crate), scratch, ignore=shutil.ignore_patterns('target'))
     tdir = os.path.join(scratch, 'target')
     cmd = ['cargo', 'kani', '--harness', harness, '-Z', 'concrete-playback', '--concrete-playback=inplace',
            '--output-format', 'terse']
@@ -151,12 +151,12 @@ def playback(harness, timeout_s=900):
     return repro, dict(test=tests[0], profiles=detail, witness=witness)
 
 
-def handle_failures(rep, failed, pid):
+def handle_failures(rep, failed, pid, crate='kani'):
     for h, r in failed:
         if any('unwinding assertion' in f for f in r['failed']):
             rep.inconc(f'Kani harness {h}: unwinding assertion failed (bound too small): {r["failed"][:2]}')
             continue
-        ok, detail = playback(h)
+        ok, detail = playback(h, crate=crate)
         if ok is None:
             rep.inconc(f'Kani harness {h} FAILED but could not be replayed: {detail}')
         elif ok:
